@@ -115,6 +115,23 @@ def builtin(ex, st, callee, args, dty, fr):
         return args[0]
     if re.fullmatch(r"<.* as IntoIterator>::into_iter", c) and isinstance(args[0], Lazy) and "Iter" in args[0].ty:
         return args[0]
+    # ---------------------------------------------------------------- iteration over a concrete array / slice value
+    if re.fullmatch(r"<&\[.*\] as IntoIterator>::into_iter", c) or re.fullmatch(r"core::slice::<impl \[.*\]>::iter", c) or \
+            re.fullmatch(r"<\[.*\] as IntoIterator>::into_iter", c):
+        arr = deref_val(ex, st, args[0])
+        if isinstance(arr, Agg) and arr.variant is None and arr.ty != "sliceiter" and all(f is not None for f in arr.fields):
+            return Agg("sliceiter", None, [arr, Sym(z3.BitVecVal(0, 64), "usize")])
+    if re.fullmatch(r"<(std::slice::|core::slice::)?Iter<.*> as Iterator>::next", c) or re.fullmatch(r"<(std::array::|core::array::)?IntoIter<.*> as Iterator>::next", c):
+        it = args[0]
+        itv = deref_val(ex, st, it)
+        if isinstance(itv, Agg) and itv.ty == "sliceiter" and isinstance(it, Ref):
+            arr, idx = itv.fields
+            i = z3.simplify(idx.t).as_long()
+            ex._set(st, it.key, list(it.path), Agg("sliceiter", None, [arr, Sym(z3.BitVecVal(i + 1, 64), "usize")]))
+            if i < len(arr.fields):
+                el = arr.fields[i]
+                return opt_some(dty, el if isinstance(el, Str) and "&&" not in dty else RefV(el))
+            return opt_none(dty)
     # ---------------------------------------------------------------- Option
     m = re.fullmatch(r"(?:std::option::|core::option::)?Option::(\w+)", c)
     if m:
